@@ -165,6 +165,33 @@ def check_lookup(case, ctx):
                                         "%s at %s gives %r (depth %d), applying the components to that root gives %s (depth %d)"
                                         % (s, len(rootpath), kind_, R.fmt_path(rootpath), got[0], got[1], rsub.xpub(vpub), rsub.depth))
                 ctx.count("deeper-root-lookups", len(ws))
+        # lookups on a paper wallet that has ALREADY generated records (interval not starting at 0) and served BIP85 requests
+        if tag == "wallet-1":
+            from btc_hd_wallet.paper_wallet import PaperWallet
+            pw_ = PaperWallet.from_bip39_seed_bytes(seed, case["testnet"])
+            acct = (L[2] - H) if len(L) >= 3 and L[2] >= H else 0
+            start = 5 + len(L)
+            call(pw_.generate, acct, (start, start + 3))
+            call(pw_.bip85.wif, 0)
+            call(pw_.bip85.hex, 32, 0)
+            coin = H + (1 if case["testnet"] else 0)
+            probes = [L] + [[H + pur, coin, H + acct, 0, j] for pur in (44, 84) for j in (0, 2)] \
+                + [[H + 83696968, 2, H], [H + 83696968, 128169, H + 32, H]]
+            for Lp in probes:
+                sp = R.fmt_path(Lp, "m")
+                try:
+                    rp_ = R.derive(rm, Lp)
+                except R.Invalid:
+                    continue
+                st_, nd = call(pw_.by_path, sp)
+                if st_ == "exc" or nd.extended_private_key() != rp_.xprv(vprv) or str(nd) != sp:
+                    raise Violation("C17/lookup/wrong-node-after-generate", "paper wallet that generated account %d rows %d..%d first: "
+                                    "by_path(%r) gives %r, applying the components gives %s" % (
+                                        acct, start, start + 2, sp, nd if st_ == "exc" else (str(nd), nd.extended_private_key()), rp_.xprv(vprv)))
+                st_, en = call(pw_.bip85.entropy, sp)
+                if st_ == "ok" and en != R85.entropy(rm, Lp):
+                    raise Violation("C17/lookup/bip85-entropy-after-app-calls", "after wif() / hex() on the same object, bip85.entropy(%r) = %s, "
+                                    "the node at exactly that path gives %s" % (sp, en.hex(), R85.entropy(rm, Lp).hex()))
         # BIP85 entropy lookup by path string
         # BIP85 itself only defines hardened paths: entropy(path) may refuse a path, but must never use another one
         st_, e = call(w.bip85.entropy, s)
